@@ -43,7 +43,7 @@ CHECKS["C16"] = dict(text="(a) thousands of random token streams tokenised by th
 CHECKS["C01"] = dict(text="generated RIDDLE problems (constraint networks; objects, rules and timelines as those families are added) run through read()+solve() in the configuration matrix h_max/h_add x CHECK_INCONSISTENCIES on/off x Debug/Release; every asserted constraint is evaluated with exact (rational, eps) arithmetic and Kleene booleans on the values the solution JSON exposes and must be True",
                      note="trusts the reference evaluator and the solution JSON as the exposed solution; one known finding (undecided theory atoms in non-monotone positions) is matched by a precise attribution rule using the lra hooks",
                      technique="runtime monitoring: reference evaluation of every asserted constraint on each reported solution across build configurations")
-CHECKS["C02"] = dict(text="whenever oRatio answers 'unsolvable' on a generated problem the verdict is compared with ground truth: the planted assignment/plan the problem was built around, z3 on the constraint-only fragment, and equivalence classes of reformulations",
+CHECKS["C02"] = dict(text="whenever oRatio answers 'unsolvable' on a generated problem the verdict is compared with ground truth: the planted assignment/plan the problem was built around (re-validated by the reference evaluator / plan checkers), z3 on the constraint-only fragment, and the verdict of the oRatio executable of the same build; every generated planning problem is solvable by construction, so every 'unsolvable' there is wrong",
                      note="'no solution' is only concluded by z3 on the constraint fragment; timeouts are inconclusive",
                      technique="runtime monitoring: differential verdicts against planted solutions and an SMT reference")
 CHECKS["C17"] = dict(text="generated class hierarchies (single/multiple/diamond inheritance, fields with initialisers, constructors with init lists and super-constructor calls, existential object fields), enums with unions, instances and variables declared in interleaved order and ==/!=/field constraints; a reference object model computes instance sets, field values and (by brute force) all satisfying value combinations, which are compared with the state exposed right after read() and with the solution on Debug and Release builds",
